@@ -13,6 +13,6 @@ CONSTANTS
   Bounded = TRUE
   AllowDirect = FALSE
   AllowAbort = TRUE
-  MaxLeft = 1
+  MaxLeft = 0
 INVARIANTS NoRecordOtherwise
 CHECK_DEADLOCK FALSE
